@@ -23,13 +23,15 @@ class Impl:
     TIME_LIMIT = 5.0
 
     def arm(self) -> None:
+        # CPU time of this process, not wall time: on a loaded machine a worker can be descheduled for longer
+        # than any sensible wall limit while a tiny program is being evaluated; a runaway evaluation burns CPU
         import signal
-        signal.signal(signal.SIGALRM, _on_alarm)
-        signal.setitimer(signal.ITIMER_REAL, self.TIME_LIMIT)
+        signal.signal(signal.SIGPROF, _on_alarm)
+        signal.setitimer(signal.ITIMER_PROF, self.TIME_LIMIT)
 
     def disarm(self) -> None:
         import signal
-        signal.setitimer(signal.ITIMER_REAL, 0)
+        signal.setitimer(signal.ITIMER_PROF, 0)
 
     def __init__(self, base: T.Optional[str] = None) -> None:
         from mesonbuild import mparser, mlog, environment, build, msetup
